@@ -23,7 +23,7 @@ ASSUMPTIONS = [
     "grid; the error histogram is reported in coverage.classes), passivity |H| <= 1+5e-3",
     "the landa_D+kL+L route (no vdneff) designs through dneff (self-coupling != 0): a different grating, not part of the equivalence",
 ]
-APOS = ["uniform", "rcos", "gaussian", "parabolic", "callable"]
+APOS = ["uniform", "rcos", "gaussian", "parabolic", "callable", "callable", "callable-scalar"]
 
 
 def profile(name, a=0.0, b=0.0):
@@ -37,6 +37,9 @@ def profile(name, a=0.0, b=0.0):
         return lambda z: np.exp(-4 * np.log(2) * (3 * z) ** 2)
     if name == "parabolic":
         return lambda z: 1 - (2 * z) ** 2
+    if name == "callable-scalar":      # a profile written for one position z at a time (math module, builtin max): it cannot take an array
+        import math
+        return lambda z: max(0.05, 1 + a * math.cos(2 * math.pi * float(z)) + b * float(z) ** 2)
     return lambda z: np.maximum(0.05, 1 + a * np.cos(2 * np.pi * z) + b * z ** 2)
 
 
@@ -71,7 +74,7 @@ def e_case(c):
     fc = f0 + c["m"] * fs / N
     lD = CL / fc
     apo = c["apo"]
-    apod = profile("callable", c["a"], c["b"]) if apo == "callable" else apo
+    apod = profile(apo, c["a"], c["b"]) if apo.startswith("callable") else apo
     L = kL * lD / (np.pi * vd)
     base = dict(vdneff=vd, apodization=apod, F=F, filtfilt=c["filtfilt"])
     route = c["route"]
@@ -120,6 +123,28 @@ def e_case(c):
                 refl = np.where(np.abs(gam) < 1e-9, (k ** 2) / (1 + k ** 2), (np.sinh(gam) ** 2 / (np.cosh(gam) ** 2 - d ** 2 / k ** 2)).real)
             ok = np.isfinite(refl)
             check(float(np.max(np.abs(A[ok] ** 2 - refl[ok]))) <= 1e-2, "uniform-spectrum!=closed-form", f"kL={kL:.3f} vd={vd:.2e} fs={fs:.3e}: max err {np.max(np.abs(A[ok] ** 2 - refl[ok])):.2e}")
+    # a DIFFERENT profile function with the very same design numbers, right after the first one was dropped (it may well be allocated
+    # at the address the first one occupied): the response is that of the profile passed now
+    if F == 0 and apo.startswith("callable"):
+        old_id = id(apod)
+        base.pop("apodization")
+        del apod, p
+        import gc
+        gc.collect()            # (the solver keeps the profile in a reference cycle until the next collection)
+        a2, b2 = (-c["a"] if abs(c["a"]) > 0.1 else 0.7), -c["b"] / 2
+        spare = []
+        for _ in range(2000):              # keep allocating profile functions until one lands on the freed address (usually within a few hundred)
+            p2 = profile(apo, a2, b2)
+            if id(p2) == old_id:
+                break
+            spare.append(p2)
+        errclass.append("second-profile-at-same-address" if id(p2) == old_id else "second-profile-elsewhere")
+        _, H3 = call_fbg(x, apodization=p2, **base, **spec)
+        integ2, _ = integrate.quad(p2, -0.5, 0.5, epsabs=1e-12, limit=200)
+        want2 = np.tanh(kL * integ2) ** 2
+        check(abs(np.abs(H3[ib]) ** 2 - want2) <= 2e-2 * want2 + 1e-6, "bragg-reflectivity!=tanh^2(kL*int p)",
+              f"second callable profile with the same design numbers: |H|^2 = {np.abs(H3[ib]) ** 2:.6f} vs {want2:.6f} (first profile gave {A[ib] ** 2:.6f})")
+        base["apodization"] = apod = profile(apo, c["a"], c["b"])
     # the same design on another grid, configured later in the same process: the response is computed for the grid now in force
     if F == 0 and c["m"] == 0:
         fs2 = fs * (0.5 if fs > 60e9 else 2.0)
